@@ -1,5 +1,7 @@
 import LnModel.Sexp
 import LnModel.Treeshake
+import LnModel.Documented
+import LnModel.RustTy
 /-! Reading an OpenAPI document (as dumped by the harness from the *parsed* `openapiv3::OpenAPI`)
 and printing a `HirSpec`, for the driver. Not part of any proof. -/
 namespace Ln.SpecIO
@@ -202,8 +204,44 @@ def xTo {α : Type} (f : α → Sexp) : X α → Sexp
   | .ok v => f v
   | .error e => .list [.atom "panic", .atom (panicName e)]
 
+partial def tyOfS : Sexp → Option Ty
+  | .atom "string" => some .string
+  | .list [.atom "integer", .atom "simple"] => some (.integer .simple)
+  | .list [.atom "integer", .atom "string"] => some (.integer .string)
+  | .list [.atom "integer", .atom "nullAsZero"] => some (.integer .nullAsZero)
+  | .atom "float" => some .float
+  | .atom "boolean" => some .boolean
+  | .list [.atom "array", t] => (tyOfS t).map .array
+  | .list [.atom "map", t] => (tyOfS t).map .hashMap
+  | .list [.atom "model", .str n] => some (.model n)
+  | .atom "unit" => some .unit
+  | .list [.atom "date", .atom "iso8601"] => some (.date .iso8601)
+  | .list [.atom "date", .atom "integer"] => some (.date .integer)
+  | .atom "datetime" => some .dateTime
+  | .atom "currency" => some .currency
+  | .atom "any" => some .any
+  | _ => none
+
+def identPanic : Panic → String
+  | .emptyIdent => "emptyIdent" | .parenInIdent => "parenInIdent" | .numericIdent => "numericIdent" | .dotInIdent => "dotInIdent"
+
+def textX : Except Panic Text → Sexp
+  | .ok t => .list [.atom "ok", .str t]
+  | .error e => .list [.atom "panic", .atom (identPanic e)]
+
 def step (req : Sexp) : Option Sexp :=
   match req with
+  | .list [.atom "doc_ty", s, r] => do
+      let spec ← specOf s
+      let r ← srefOf r
+      pure (xTo tyTo (docTy spec FUEL r))
+  | .list [.atom "impl_ty", s, r] => do
+      let spec ← specOf s
+      let r ← srefOf r
+      pure (xTo tyTo (tyOfRef spec r))
+  | .list [.atom "rust_type", t] => (tyOfS t).map fun t => textX (toRustType t)
+  | .list [.atom "ref_type", .str sp, t] => (tyOfS t).map fun t => textX (toReferenceType sp t)
+  | .list [.atom "is_ref_type", t] => (tyOfS t).map fun t => b (isReferenceType t)
   | .list [.atom "extract", s] => (specOf s).map fun spec => xTo hirTo (extractSpec spec)
   | .list [.atom "extract_raw", s] => (specOf s).map fun spec => xTo hirTo (extractWithoutTreeshake spec)
   | _ => none
